@@ -87,7 +87,7 @@ var hostileInts = []string{"", "0", "1", "-1", "+5", "abc", "1e5", "0x10", " 1",
 	"-115792089237316195423570985008687907853269984665640564039457584007913129639935", // -(2^256-1)
 	strings.Repeat("9", 80), "1000000", "18446744073709551616", "1.5", "\x00", "1\n"}
 
-var hostileStringsExtra = []string{"", "a", "ab", "\x00", "ſ", "K", strings.Repeat("A", 300), "uusdc\x00", "u u", "ÿþ", "\xff\xfe", "noble1", "cosmos1qqqqqqqqqqqqqqqqqqqqqqqqqqqqqqqqnrql8a"}
+var hostileStringsExtra = []string{strings.Repeat("€", 43), strings.Repeat("ü", 65), "uusdc" + strings.Repeat("😀", 31), "", "a", "ab", "\x00", "ſ", "K", strings.Repeat("A", 300), "uusdc\x00", "u u", "ÿþ", "\xff\xfe", "noble1", "cosmos1qqqqqqqqqqqqqqqqqqqqqqqqqqqqqqqqnrql8a"}
 
 type c20Gen struct {
 	r       *rand.Rand
@@ -370,7 +370,48 @@ func allRolesGenesis(holder string) *ct.GenesisState {
 // c20Extremes: every extreme configured value against every extreme request value, through typed requests on the
 // monitored engine (whose crash tap reports any recovered panic): burn limits x deposit amounts, body-size limits x
 // body lengths, thresholds x attestation lengths, extreme inbound amounts.
+// c20LongStrings: strings whose byte length and character count fall on different sides of the usual limits (32, 64,
+// 128, 255, 256): long multi-byte text, long invalid UTF-8, mixed. Each is presented as burn token (to a destination
+// with a messenger, everything else valid), as local token of a burn limit / a link, and as attester identifier.
+var c20LongStrings = []string{strings.Repeat("€", 43), strings.Repeat("ü", 65), "uusdc" + strings.Repeat("😀", 31), strings.Repeat("€", 86), strings.Repeat("é", 33), strings.Repeat("€", 11),
+	strings.Repeat("😀", 64), strings.Repeat("😀", 33), strings.Repeat("\xff", 200), strings.Repeat("a€", 50), strings.Repeat("€", 42) + "ab", "u" + strings.Repeat("ſ", 127), strings.Repeat("€", 21) + "\xe2\x82",
+	strings.Repeat("a", 127) + "€", strings.Repeat("a", 128), strings.Repeat("a", 129), strings.Repeat("€", 85), strings.Repeat("ü", 127), strings.Repeat("ü", 128)}
+
+func c20LongStringCases(rc *RunCtx) {
+	e, err := StdEngine(rc, false, false, nil)
+	if err != nil {
+		rc.Cov.Inconclusive("c20 long strings: " + err.Error())
+		return
+	}
+	e.LightQueries = true
+	nonce := uint64(5_500_000)
+	for i, s := range c20LongStrings {
+		if i%rc.NShards != rc.Shard {
+			continue
+		}
+		e.Exec(Tx{Msgs: msgs1(&ct.MsgDepositForBurn{From: Acct(RichIx), Amount: mkInt(big.NewInt(5)), DestinationDomain: 0, MintRecipient: Structured32(9), BurnToken: s}), Note: "C20 long strings: burn token"})
+		e.Exec(Tx{Msgs: msgs1(&ct.MsgDepositForBurnWithCaller{From: Acct(RichIx), Amount: mkInt(big.NewInt(5)), DestinationDomain: 1, MintRecipient: Structured32(9), BurnToken: s, DestinationCaller: Structured32(8)}), Note: "C20 long strings: burn token"})
+		e.Exec(Tx{Msgs: msgs1(&ct.MsgSetMaxBurnAmountPerMessage{From: e.M.TC, LocalToken: s, Amount: mkInt(big.NewInt(7))}), Note: "C20 long strings: local token of a limit"})
+		e.Exec(Tx{Msgs: msgs1(&ct.MsgLinkTokenPair{From: e.M.TC, RemoteDomain: 0, RemoteToken: Structured32(byte(i + 1)), LocalToken: s}), Note: "C20 long strings: local token of a pair"})
+		e.Exec(Tx{Msgs: msgs1(&ct.MsgUnlinkTokenPair{From: e.M.TC, RemoteDomain: 0, RemoteToken: Token(0), LocalToken: s}), Note: "C20 long strings: local token of an unlink"})
+		e.Exec(Tx{Msgs: msgs1(&ct.MsgEnableAttester{From: e.M.AM, Attester: s}), Note: "C20 long strings: attester identifier"})
+		e.Exec(Tx{Msgs: msgs1(&ct.MsgDisableAttester{From: e.M.AM, Attester: s}), Note: "C20 long strings: attester identifier"})
+		// a receive whose destination caller names somebody else (the refusal quotes both)
+		nonce++
+		in := StdInbound(nonce, 1, big.NewInt(5))
+		in.Caller = Structured32(byte(0x40 + i))
+		raw := in.Bytes()
+		e.Exec(Tx{Msgs: msgs1(&ct.MsgReceiveMessage{From: Acct(UserIx), Message: raw, Attestation: e.Attest(raw, 0)}), Note: "C20 long strings: receive by the wrong caller"})
+		var qr ct.QueryGetPerMessageBurnLimitResponse
+		_ = e.C.Query("PerMessageBurnLimit", &ct.QueryGetPerMessageBurnLimitRequest{Denom: s}, &qr)
+		var ar ct.QueryGetAttesterResponse
+		_ = e.C.Query("Attester", &ct.QueryGetAttesterRequest{Attester: s}, &ar)
+		rc.Cov.Cell("C20_long_strings", fmt.Sprintf("bytes=%d/chars=%d", len(s), len([]rune(s))))
+	}
+}
+
 func c20Extremes(rc *RunCtx) {
+	c20LongStringCases(rc)
 	neg := func(v *big.Int) *big.Int { return new(big.Int).Neg(v) }
 	vals := []*big.Int{big.NewInt(0), big.NewInt(1), big.NewInt(-1), pow2(63), new(big.Int).Sub(Two64, big.NewInt(1)), Two64, Two255, Max256, neg(Two255), neg(Max256), new(big.Int).Sub(Two255, big.NewInt(1))}
 	for pass := 0; pass < 2; pass++ {
